@@ -157,7 +157,7 @@ func TestGvcReplay(t *testing.T) {
 		}
 		// 2. existing images of every interesting previous length
 		n := uint64(8)
-		prevs := []int64{0, 1, int64(n), 4096 - 1, 4096 + 7, int64(n) * 4096, int64(n)*4096 + 4096 + 5, int64(gvcModelU64("oldsize", 100) % (1 << 20))}
+		prevs := []int64{0, 1, int64(n), 4096 - 1, 4096 + 7, int64(n) * 4096, int64(n)*4096 + 4096 + 5, int64(n-1)*4096 + 1, int64(n)*4096 - 1, int64(n)*4096 + 1, int64(n+1)*4096 - 1, int64(gvcModelU64("oldsize", 100) % (1 << 20))}
 		if !is("NewFileDisk", "Close") {
 			prevs = nil
 		}
